@@ -201,7 +201,7 @@ def run_shape(shape, tier):
             outcome, problem = attempt(item, env)
             if outcome == "no-base":
                 raise Skip("prefix rejected")
-            ok = outcome in _classes(item) or (item.get("maybe_ok") and outcome == "returned")
+            ok = bool(outcome in _classes(item) or (item.get("maybe_ok") and outcome == "returned"))
             return [("existing relations unchanged", problem is None, {"problem": problem}),
                     ("rejected with the documented class", ok, {"outcome": outcome, "expected": item["classes"]})]
 
